@@ -556,6 +556,39 @@ class Mut:
         items.insert(rng.randint(pos + 1, len(items)), new)
         return dict(code=33, file=key, node=new, rule="division by zero in a constant expression")
 
+    def scenario_insert(self, files):
+        """one of the round-2 scenario families (same dotted text reused, cross-kind shadowing, a
+        member named like a visible definition, twin short names) appended to a random file of a
+        valid tree, every identifier prefixed so that nothing else is disturbed"""
+        rng = self.rng
+        sfiles, _top, info = fg.scenario(rng, in_import=False)
+        if len(sfiles) != 1:
+            return None
+        items = sfiles["rootp.bitproto"][1:]
+        pre = self.z("Zs")
+        fg.map_names(items, lambda n: pre + n)
+        key = rng.choice(list(files))
+        pos = rng.randint(0, len(files[key]))
+        files[key][pos:pos] = items
+        code, node = info["expect"]
+        n_importers = sum(1 for kk, its in files.items() for x in its if x[0] == "import" and x[3] == key)
+        return dict(code=code if (n_importers <= 1) else None, file=key, node=node,
+                    rule=f"scenario {info['family']}/{info['variant']}")
+
+    def big_division_cap(self, files):
+        """an array capacity written as a quotient of operands beyond 2^53 (exact integer division)"""
+        rng = self.rng
+        slots = [(k, it, idx) for k, it, idx in _slots(files) if it[idx][0] == "arr" and it[idx][2][0] == "lit"]
+        if not slots:
+            return None
+        key, it, idx = rng.choice(slots)
+        n = it[idx][2][1]
+        d = 1 << rng.choice([54, 56, 60, 62, 64])
+        cn = self.z("ZBIG")
+        _insert_top_before(files, key, it, ["const", None, cn, ["expr", ["div", ["int", (n + 1) * d - 1], ["int", d]]]])
+        it[idx][2] = ["ref", [cn]]
+        return dict(code=0, file=key, node=None, rule="capacity as a quotient of operands beyond 2^53")
+
     # ---- 12 imports ----
     def import_cycle(self, files):
         rng = self.rng
@@ -648,7 +681,7 @@ class Mut:
     ALL = ["width", "array_cap", "field_number", "dup_number", "enum_overflow", "enum_dup_value", "enum_base",
            "dup_name", "dup_import_name", "max_bytes", "max_bytes_ok", "msg_too_big", "alias_named", "in_message",
            "in_enum", "import_in_scope", "option", "undefined_type", "later_type", "inner_not_visible",
-           "extend_path", "importer_not_visible", "div_zero",
+           "extend_path", "importer_not_visible", "div_zero", "scenario_insert", "big_division_cap",
            "const_as_type", "type_as_const", "import_cycle", "import_twice", "import_missing", "no_proto",
            "traditional", "grammar_misplaced"]
 
